@@ -4,7 +4,7 @@
 (* (csvpath/matching: matcher.py, productions, functions).                 *)
 (*                                                                         *)
 (* AST node (uniform shape):                                               *)
-(*   [k, name, name_q, quals, args, val, track]                            *)
+(*   [k, name, name_q, quals, args, val, track, tmpl]                      *)
 (*   k     "hdr" | "var" | "term" | "fn" | "eq" | "assign" | "when"        *)
 (*   name  variable / function name (STRING); "" otherwise                 *)
 (*   quals set-like sequence of qualifier names (STRING)                   *)
@@ -16,8 +16,10 @@
 (*         function keeps its bookkeeping under; for a string term the     *)
 (*         string itself (stack names of push/pop)                         *)
 (*                                                                         *)
+(*   tmpl  the parsed template of a print() (Print.tla), <<>> otherwise    *)
 (* ctx (constant while a line is matched):                                 *)
-(*   [line, headers, k, dataCount, endNum, lastScan, totalData, AND, comps]*)
+(*   [line, headers, k, dataCount, endNum, lastScan, totalData, AND, comps,*)
+(*    meta]                                                                *)
 (* st (threaded through evaluation, in evaluation order):                  *)
 (*   [vars, stopped, skip, advance, valid, matchCount, curMatch, scanCount,*)
 (*    printed, frozen, memo, cur]                                          *)
@@ -28,7 +30,7 @@
 (*                                                                         *)
 (* Dev: set of named deviations (known findings). {} = documented meaning. *)
 (***************************************************************************)
-EXTENDS Values, Assign, TLC
+EXTENDS Values, Assign, Print, TLC
 
 CONSTANT Dev
 
@@ -240,7 +242,16 @@ EvFn(node, st0, ctx) ==
                          IN IF b /\ Len(node.args) = 1
                               THEN R(VBool(b), b, Ev(node.args[1], st, ctx).st)
                               ELSE R(VBool(b), b, st)
-    [] nm = "print"   -> R(None, D, [st EXCEPT !.printed = Append(st.printed, A(1).s)])
+    [] nm = "print"   ->
+          \* qualifiers: once (at most one execution per run; its marker is a hash-named variable,
+          \* modelled here by st.onceDone), onmatch handled above
+          LET env == [vars |-> st.vars, line |-> ctx.line, headers |-> ctx.headers, meta |-> ctx.meta, k |-> ctx.k,
+                      matchCount |-> st.matchCount, scanCount |-> st.scanCount, totalData |-> ctx.totalData]
+              out == IF node.tmpl = <<>> THEN A(1).s ELSE Emitted(node.tmpl, env)
+              blocked == Has(node, "once") /\ node.name_q \in st.onceDone
+          IN IF blocked THEN R(None, D, st)
+             ELSE R(None, D, [st EXCEPT !.printed = Append(st.printed, out),
+                                        !.onceDone = IF Has(node, "once") THEN @ \cup {node.name_q} ELSE @])
     [] OTHER -> R(None, D, st)
 
 \* ---- nodes ---------------------------------------------------------------------------------------
